@@ -115,6 +115,8 @@ def chain(ctx) -> None:
     for want in ("self._generation: 'asset.Generation' = generation", "self._nodes: tuple[uuid.UUID] = tuple(nodes)", "self._tag: typing.Optional['asset.Tag'] = tag"):
         ctx.check(any(core.src(x) == want for x in si.body), 'C04.chain', si, f'State keeps `{want.split(":")[0]}` as given', si.node, key=f'State.__init__:{want.split(":")[0]}')
     C01.persistence(ctx)
+    C01.port_order(ctx)  # the committer receives each dumped state at the argument position State.offset(gid) names
+    C01.refusals(ctx)
     # an implicit ("latest") level key is resolved once and pinned: all state loads of one run see one generation
     lk = prog.func('forml.io.asset._directory:Level.key')
     pins = [s for s in core.walk_local(lk.node) if isinstance(s, ast.Assign) and core.src(s.targets[0]) == 'self._key' and core.src(s.value) == 'self._parent.list().last']
